@@ -327,3 +327,54 @@ Qed.
 
 Lemma changeover_complete_spec init_h h : changeover_complete init_h h = true <-> init_h + 2 <= h.
 Proof. unfold changeover_complete. apply Z.leb_le. Qed.
+
+(* the cross-chain validator store after ApplyCCValidatorChanges: last writer wins, a power below 1 means absent *)
+Lemma lookup_cc_apply k cs : forall m,
+  lookup k (cc_apply cs m) =
+  match find (fun x => ukey x =? k) (rev cs) with
+  | Some u => if upow u <? 1 then None else Some (upow u)
+  | None => lookup k m
+  end.
+Proof.
+  induction cs as [|c t IH]; intros m; cbn [cc_apply rev find]; [reflexivity|].
+  rewrite find_app_first.
+  assert (Hstep : forall m', 
+    (forall k', lookup k' m' = if ukey c =? k' then (if upow c <? 1 then None else Some (upow c)) else lookup k' m) ->
+    lookup k (cc_apply t m') =
+    match find (fun x => ukey x =? k) (rev t) with
+    | Some x => if upow x <? 1 then None else Some (upow x)
+    | None => match find (fun x => ukey x =? k) [c] with
+              | Some u => if upow u <? 1 then None else Some (upow u)
+              | None => lookup k m end
+    end).
+  { intros m' Hm'. rewrite IH. destruct (find (fun x => ukey x =? k) (rev t)); [reflexivity|].
+    cbn [find]. rewrite Hm'. destruct (ukey c =? k); reflexivity. }
+  destruct (lookup (ukey c) m) as [p|] eqn:El.
+  - destruct (upow c <? 1) eqn:Ep.
+    + rewrite Hstep.
+      * destruct (find (fun x => ukey x =? k) (rev t)); reflexivity.
+      * intros k'. rewrite lookup_remove_key. reflexivity.
+    + rewrite Hstep.
+      * destruct (find (fun x => ukey x =? k) (rev t)); reflexivity.
+      * intros k'. rewrite lookup_map_set_any. reflexivity.
+  - destruct (0 <? upow c) eqn:Ep.
+    + assert (Ep' : upow c <? 1 = false) by (apply Z.ltb_lt in Ep; apply Z.ltb_ge; lia).
+      rewrite Hstep.
+      * destruct (find (fun x => ukey x =? k) (rev t)); reflexivity.
+      * intros k'. rewrite lookup_map_set_any, Ep'. reflexivity.
+    + assert (Ep' : upow c <? 1 = true) by (apply Z.ltb_ge in Ep; apply Z.ltb_lt; lia).
+      rewrite Hstep.
+      * destruct (find (fun x => ukey x =? k) (rev t)); reflexivity.
+      * intros k'. rewrite Ep'. destruct (ukey c =? k') eqn:E; [|reflexivity].
+        apply Z.eqb_eq in E. subst k'. exact El.
+Qed.
+
+Lemma changeover_cc_store init k :
+  (forall x, In x init -> 0 < upow x) ->
+  lookup k (cc_apply init []) = lookup_last k init.
+Proof.
+  intros Hpos. rewrite lookup_cc_apply. unfold lookup_last, lookup.
+  destruct (find (fun x => ukey x =? k) (rev init)) as [u|] eqn:E; [|reflexivity].
+  apply find_some in E. destruct E as [Hu _]. apply in_rev in Hu. specialize (Hpos u Hu).
+  destruct (upow u <? 1) eqn:E0; [apply Z.ltb_lt in E0; lia | reflexivity].
+Qed.
